@@ -1187,6 +1187,8 @@ pub enum Res {
     Finished,
     /// the bridge could not decode the response
     Undecodable,
+    /// an error of a kind this harness does not know (the enums of crux may grow): never predicted
+    Other,
 }
 
 impl RState {
